@@ -1,6 +1,7 @@
 (* JSON as serde_json (no arbitrary_precision, no preserve_order, recursion limit 128) writes and
    reads it, and the Frame codec on top (derive(Serialize, Deserialize) for Frame in
    src/store/mod.rs; deserialize_frame panics on undecodable stored bytes).
+   (Object member order: see `normalize`.)
    Oracles: f64 printing/parsing (a non-integer number is kept as its lexeme), UTF-8 validation
    (strings are byte lists; Rust Strings are valid by type), the scru128 text form and
    ssri::Integrity (section variables).  Model file: definitions only. *)
@@ -285,13 +286,14 @@ Definition parse_json_at (depth : nat) (s : bytes) : option json :=
   end.
 Definition parse_json (s : bytes) : option json := parse_json_at recursion_limit s.
 
-(* ---- serde_json::Value: objects are BTreeMaps (sorted by key bytes, the last duplicate wins) ---- *)
+(* ---- serde_json::Value: in this build serde_json has the feature `preserve_order` (pulled in by
+   nu-json), so an object is an IndexMap: members keep the order of their FIRST insertion and a
+   duplicate key replaces the value in place ---- *)
 Fixpoint obj_insert (k : bytes) (v : json) (l : list (bytes * json)) : list (bytes * json) :=
   match l with
   | [] => [(k, v)]
   | (k', v') :: r =>
-      if lex_ltb k k' then (k, v) :: l
-      else if bytes_eqb k k' then (k, v) :: r
+      if bytes_eqb k k' then (k, v) :: r
       else (k', v') :: obj_insert k v r
   end.
 
@@ -326,16 +328,18 @@ Fixpoint wf_lex (v : json) : bool :=
   | JObj l => forallb (fun kv => match kv with (_, x) => wf_lex x end) l
   | _ => true
   end.
-(* ... that are serde_json::Values: object keys strictly increasing *)
-Fixpoint sorted_keys (l : list (bytes * json)) : bool :=
+(* ... that are serde_json::Values: object keys pairwise distinct (in any order) *)
+Definition key_in (k : bytes) (l : list (bytes * json)) : bool :=
+  existsb (fun kv => bytes_eqb k (fst kv)) l.
+Fixpoint nodup_keys (l : list (bytes * json)) : bool :=
   match l with
-  | (k1, _) :: r => match r with (k2, _) :: _ => lex_ltb k1 k2 && sorted_keys r | [] => true end
+  | (k, _) :: r => negb (key_in k r) && nodup_keys r
   | [] => true
   end.
 Fixpoint wf_value (v : json) : bool :=
   match v with
   | JArr l => forallb wf_value l
-  | JObj l => sorted_keys l && forallb (fun kv => match kv with (_, x) => wf_value x end) l
+  | JObj l => nodup_keys l && forallb (fun kv => match kv with (_, x) => wf_value x end) l
   | _ => true
   end.
 
